@@ -12,9 +12,9 @@ import (
 )
 
 type outputReq struct {
-	HS         map[string]string `json:"hs"`        // JSON v1 key -> decimal value
-	Witness    map[string]string `json:"witness"`   // metric -> hex oid ("" = none)
-	Groups     [][3]string       `json:"groups"`    // symbol, name, count
+	HS         map[string]string `json:"hs"`      // JSON v1 key -> decimal value
+	Witness    map[string]string `json:"witness"` // metric -> hex oid ("" = none)
+	Groups     [][3]string       `json:"groups"`  // symbol, name, count
 	Thresholds []string          `json:"thresholds"`
 	Style      string            `json:"style"`
 }
